@@ -389,6 +389,7 @@ def run(tier: str) -> Run:
         'isolated peaks, window inside the data': ((10, 30, 50), 4),
         'windows wider than the peak distance': ((10, 14, 50), 12),
         'estimates at and beyond the data range': ((0, 30, 62), 10),
+        'estimates farther outside the data than half a window': ((-20, 30, 90), 10),
         'a single estimate': ((30,), 100),
     }
     for name, (centres, width) in layouts.items():
